@@ -193,7 +193,7 @@ def cmdDask (a : Args) : String :=
 def showCT (pct : Bool) (t : CTable R R Nat) : String :=
   let f : CTable R R (Option R) := t.finish pct
   s!"zone={showXs f.zone};cats={showXs f.cats};total={showNs f.total};rows=" ++
-    (if f.rows.isEmpty then "-" else "|".intercalate (f.rows.map showOs))
+    "|".intercalate (f.rows.map showOs)
 
 def pctOf (a : Args) : Except String Bool :=
   match a.get? "agg" with
@@ -257,7 +257,7 @@ def agg3 (s : Stat) : List (X R) → Option R := fun l =>
 
 def showCT3 (t : CTable3 R R (Option R)) : String :=
   s!"zone={showXs t.zone};cats={showXs t.cats};cols=" ++
-    (if t.cols.isEmpty then "-" else "|".intercalate (t.cols.map showOs))
+    "|".intercalate (t.cols.map showOs)
 
 /-- `xtab3 ...` : 3-D `crosstab` on numpy rasters -/
 def cmdXtab3 (a : Args) : String :=
